@@ -45,5 +45,6 @@ MCNext == XMakeEnable \/ XMakeExplicit \/ XGuard \/ XAddOther \/ XExchange
 (* export: the app once (from the initial state), then one row per cell *)
 Emit == /\ (wiring = "none") => PrintT(ToJson([app |-> [routes |-> routes, sinks |-> sinks, statics |-> statics, sbs |-> sbs]]))
         /\ Answered => PrintT(ToJson([wiring |-> wiring, cfg |-> cfg, other |-> other, guard |-> guard,
-                                      rq |-> ans.rq, beh |-> ans.beh, ok |-> ans.x.succeeded, out |-> ans.out]))
+                                      rq |-> ans.rq, beh |-> ans.beh, ok |-> ans.x.succeeded, out |-> ans.out,
+                                      denied |-> DeniedPreflight]))
 =============================================================================
